@@ -10,7 +10,7 @@ Row clauses for a yielded row R of node n called with (sigma, f), m := R (+) sig
   R2 legitimacy    good_row(n, m)      (variables in their domains, mapped entries related to their inputs)
   R3 label         cond_pos(n)  ->  for every total rho extending m with WD(n, rho):  lbl == not Den(n, rho)
   R4 filter        cond_pos(n) and not f  ->  not lbl
-  R5 own value     is_value(n)  ->  nid(n) in dom R
+  R5 own value     is_value(n)  ->  nid(n) in dom R;   Binds(n) subset dom m  (ids every row must bind)
 Stream clause
   C1 completeness  for every rho extending sigma with WD(n, rho) and (cond_pos(n) -> Den(n, rho) or f):
                    some yielded row has rho extending (R (+) sigma)     [or was suppressed as a duplicate]
@@ -39,7 +39,13 @@ def total(rho):
 
 
 def WD(n, rho):
-    return Z.good_row(n, total(rho))
+    return Z.WD(n, rho)
+
+
+def lab(n):
+    """the node's label / truth filter is meaningful: it stands as a condition, or it is of a class that always
+    filters by its own truth (query descriptors, quantifiers, comparators, logical operators)"""
+    return z3.Or(Z.cond_pos(n), Z.truth_node(n))
 
 
 def no_ops(n, m: Z.ZMap):
@@ -47,7 +53,7 @@ def no_ops(n, m: Z.ZMap):
 
 
 def pre_I(n, sig: Z.ZMap):
-    return z3.And(Z.good_row(n, sig), z3.Or(no_ops(n, sig), z3.And(sig.contains(Z.nid(n)), z3.Not(Z.cond_pos(n)))))
+    return z3.And(Z.good_row(n, sig), z3.Or(no_ops(n, sig), z3.And(sig.contains(Z.nid(n)), z3.Not(lab(n)))))
 
 
 def leaf_ext(n, a: Z.ZMap, n2, b2: Z.ZMap, b: Z.ZMap):
@@ -82,6 +88,10 @@ def rely_growth(n, new: Z.ZMap, old: Z.ZMap, sig: Z.ZMap):
     return z3.And(new.extends(old), z3.Map(Z.IMP_D, added_in_n, sig.has) == TRUE_IDS, new.consistent_with(sig))
 
 
+position_sensitive = z3.Function('position_sensitive', Z.Node, Z.B)   # class uses the position test (mappings, quantifiers, predicates)
+Binds = z3.Function('Binds', Z.Node, Z.ArrIB)    # ids every row of the node binds (e.g. the selected variables of a descriptor)
+
+
 def child_shape(n, c):
     """facts about a direct operand c of n (acyclic expression graph, injective ids)."""
     return [z3.Select(Z.Sub(c), c), z3.Select(Z.Sub(n), n), z3.Select(Z.Sub(n), c), z3.Not(z3.Select(Z.Sub(c), n)),
@@ -108,6 +118,8 @@ class EvalContract(LibModel):
     params_sources = 'sources'
     params_ywf = 'yield_when_false'
     caching_cases = (False,)       # which values of the caching switch this run covers
+    uses_position = False          # the real body tests `self is self._conditions_root_ or isinstance(self._parent_, ..)`
+    source_cases = ('none', 'empty', 'nonempty')
     modes = ('sound', 'witness')
 
     # ---- class specific spec (override) ----
@@ -120,8 +132,24 @@ class EvalContract(LibModel):
     def den(self, n, rho):
         raise NotImplementedError
 
+    def own(self, n, m: Z.ZMap):
+        """legitimacy of the node's own entry in a (partial) row"""
+        return z3.BoolVal(True)
+
+    def wd_extra(self, n, rho):
+        """extra well-formedness of a total environment (e.g. an operand that is a sub-query restricts, C15)"""
+        return z3.And(*[z3.Implies(Z.truth_node(c), Z.Den(c, rho)) for c in self.children(n) if self.value_child(n, c)]) \
+            if self.children(n) else z3.BoolVal(True)
+
+    def value_child(self, n, c):
+        """is c used by n as a value (operand / argument), as opposed to a condition?"""
+        return False
+
     def good(self, n, m: Z.ZMap):
-        raise NotImplementedError
+        return z3.And(*([Z.good_row(c, m) for c in self.children(n)] + [self.own(n, m)]))
+
+    def wd(self, n, rho):
+        return z3.And(*([Z.WD(c, rho) for c in self.children(n)] + [self.own(n, total(rho)), self.wd_extra(n, rho)]))
 
     # ---- setup ----
     def setup(self, eng):
@@ -130,7 +158,7 @@ class EvalContract(LibModel):
         sts = []
         n = z3.Const('self', Z.Node)
         f = z3.Bool('ywf_arg')
-        for case in ('none', 'empty', 'nonempty'):
+        for case in self.source_cases:
             for caching in self.caching_cases:
                 st = State()
                 st.fields = init_fields()
@@ -158,21 +186,22 @@ class EvalContract(LibModel):
                           Z.node_of(Z.nid(n)) == n)
                 # precondition P, with good_row unfolded at this class
                 st.assume(pre_I(n, sig))
-                st.assume(Z.cond_pos(n) == cond_pos_def(n, st.fields['eval_parent']))
+                if self.uses_position:
+                    st.assume(position_sensitive(n), Z.cond_pos(n) == cond_pos_def(n, st.fields['eval_parent']))
                 st.assume(isa(str_const('LogicalOperator'), n) == z3.BoolVal(
                     bool(self.cls and self.src.is_subclass(self.cls, 'LogicalOperator'))))
                 st.assume(Z.good_row(n, sig) == self.good(n, sig))
                 st.ghost['goodfacts'] = [(n, sig)] + [(c, sig) for c in self.children(n)]
                 # Den(self, .) unfolds by the class definition at every environment in play
                 st.qf.append(lambda rho, n=n: Z.Den(n, rho) == self.den(n, rho))
-                st.qf.append(lambda rho, n=n: WD(n, rho) == self.good(n, total(rho)))
+                st.qf.append(lambda rho, n=n: WD(n, rho) == self.wd(n, rho))
                 if eng.mode == 'witness':
                     rho_t = z3.Const('rho_t', Z.Env)
                     st.ghost['rho_t'] = rho_t
                     st.ghost['covered'] = z3.BoolVal(False)
                     st.ghost['envs'] = [rho_t]
                     st.assume(Z.ext(rho_t, sig), WD(n, rho_t),
-                              z3.Implies(Z.cond_pos(n), z3.Or(Z.Den(n, rho_t), st.ghost['ywf_arg'])))
+                              z3.Implies(lab(n), z3.Or(Z.Den(n, rho_t), st.ghost['ywf_arg'])))
                     st.assume(*[q(rho_t) for q in st.qf])
                 if eng.feasible(st):
                     sts.append(st)
@@ -212,9 +241,10 @@ class EvalContract(LibModel):
         st.assume(R.subset_of_ids(Z.ids_union(sig.has, Z.SubIds(c))),
                   R.consistent_with(sig),
                   Z.good_row(c, m),
-                  z3.Implies(z3.And(Z.cond_pos(c), z3.Not(f)), z3.Not(lbl)),
-                  z3.Implies(Z.is_value(c), R.contains(Z.nid(c))))
-        st.qf.append(lambda rho, m=m, c=c, lbl=lbl: z3.Implies(z3.And(Z.ext(rho, m), Z.cond_pos(c), WD(c, rho)),
+                  z3.Implies(z3.And(lab(c), z3.Not(f)), z3.Not(lbl)),
+                  z3.Implies(Z.is_value(c), R.contains(Z.nid(c))),
+                  z3.Map(Z.IMP_D, Binds(c), m.has) == TRUE_IDS)
+        st.qf.append(lambda rho, m=m, c=c, lbl=lbl: z3.Implies(z3.And(Z.ext(rho, m), lab(c), WD(c, rho)),
                                                                  lbl == z3.Not(Z.Den(c, rho))))
         for e in st.ghost.get('envs', []):
             st.assume(st.qf[-1](e))
@@ -244,7 +274,7 @@ class EvalContract(LibModel):
                 break
         return mutated
 
-    def havoc_for_loop(self, eng, st: State, body, callee=None, extra_refs=()) -> State:
+    def havoc_for_loop(self, eng, st: State, body, callee=None, extra_refs=(), sigma_of_callee=None) -> State:
         st = st.clone()
         # locals
         for nm in eng.written_names(body):
@@ -259,6 +289,33 @@ class EvalContract(LibModel):
             grown = Z.ZMap.fresh('sg')
             st.assume(rely_growth(st.ghost['self'], grown, st.ghost['sigma_now'], st.ghost['sigma_now']))
             st.ghost['sigma_now'] = grown
+        entries = dict(st.ghost.get('loop_entry', {}))
+        for ref, kinds in list(extra_refs.items()):
+            if kinds - {'rely'} and ref not in syn:
+                # a dict that exists before the loop is extended inside it (by this function through an alias, or by
+                # a callee that was handed it as sigma): loop invariant "consistent extension by ids of the node's own
+                # subtree", re-proved at the end of every iteration (frame@dict)
+                oldc = st.dicts[ref]
+                newc = Z.ZMap.fresh('sw')
+                relied = 'rely' in kinds
+                # who may add ids: the callee that is handed this dict as its sigma (its own subtree, R0) and this
+                # node itself (its own id)
+                who = Z.SubIds(st.ghost['self'])
+                if sigma_of_callee is not None and ref == sigma_of_callee[0]:
+                    who = z3.Store(Z.SubIds(sigma_of_callee[1]), Z.nid(st.ghost['self']), z3.BoolVal(True))
+                if ref == sref:
+                    # the parameter sigma: its content extends both what it was before the loop and sigma as
+                    # (possibly) grown by the consumer; new ids only from this node's subtree
+                    sn = st.ghost['sigma_now']
+                    st.assume(newc.extends(oldc), newc.extends(sn), self.own(st.ghost['self'], newc),
+                              newc.subset_of_ids(Z.ids_union(Z.ids_union(oldc.has, sn.has), who)))
+                    entries[ref] = (oldc, 'sigma', who)
+                else:
+                    st.assume(self.dict_frame(st, oldc, newc, relied, who))
+                    entries[ref] = (oldc, relied, who)
+                st.dicts[ref] = newc
+                del extra_refs[ref]
+        st.ghost['loop_entry'] = entries
         for ref, kinds in extra_refs.items():
             if kinds == {'rely'} and ref not in syn:
                 new = Z.ZMap.fresh('rl')
@@ -335,6 +392,23 @@ class EvalContract(LibModel):
     def loop_dict_invariant(self, eng, st, ref, old, new):
         return None
 
+    def dict_frame(self, st, old: Z.ZMap, new: Z.ZMap, relied, who):
+        n = st.ghost['self']
+        if relied:
+            return z3.And(new.extends(old), self.own(n, new))
+        return z3.And(new.extends(old), new.subset_of_ids(Z.ids_union(old.has, who)), self.own(n, new))
+
+    def check_sigma_frame(self, eng, st, ordinal):
+        for ref, (oldc, relied, who) in st.ghost.get('loop_entry', {}).items():
+            if ref in st.dicts and relied == 'sigma':
+                cur, sn, n = st.dicts[ref], st.ghost['sigma_now'], st.ghost['self']
+                eng.oblige(st, f"frame@dict/loop{ordinal}",
+                           z3.And(cur.extends(oldc), cur.extends(sn), self.own(n, cur),
+                                  cur.subset_of_ids(Z.ids_union(Z.ids_union(oldc.has, sn.has), who))), line=0)
+                continue
+            if ref in st.dicts:
+                eng.oblige(st, f"frame@dict/loop{ordinal}", self.dict_frame(st, oldc, st.dicts[ref], relied, who), line=0)
+
     def fresh_like(self, eng, st, v, nm):
         if isinstance(v, ZV):
             return ZV(z3.FreshConst(v.t.sort(), 'h_' + nm), v.ty)
@@ -389,14 +463,71 @@ class EvalContract(LibModel):
             return self.loop_stream(eng, st, s.target, s.body, it, ordinal, s)
         if isinstance(it, Obj) and it.kind == 'mapstream':
             return self.loop_mapstream(eng, st, s.target, s.body, it, ordinal, s)
+        if isinstance(it, Obj) and it.kind == 'domain':
+            return self.loop_domain(eng, st, s.target, s.body, it, ordinal, s)
         raise OutOfSubset(f"loop over {it}", s)
 
+    def loop_domain(self, eng, st, target, body, dom, ordinal, node):
+        """for v in self._domain_  (HashedIterable.__iter__, proved separately: delivers exactly Dom(x), in order)"""
+        n = dom.data['of']
+
+        def iteration(h, witness=False):
+            b = h.clone()
+            if witness:
+                v = z3.Select(h.ghost['rho_t'], Z.nid(n))
+            else:
+                v = z3.FreshConst(Z.HV, 'dv')
+                b.assume(Z.indom(n, v))
+            res = []
+            for b2 in eng.assign(target, ZV(v, 'hv'), b):
+                res.extend(eng.exec_block(body, b2))
+            return res
+        return self.simple_loop(eng, st, body, iteration, ordinal,
+                                (lambda s_: Z.indom(n, z3.Select(s_.ghost['rho_t'], Z.nid(n)))) if eng.mode == 'witness' else None)
+
+    def simple_loop(self, eng, st, body, iteration, ordinal, witness_hyp):
+        outs = []
+        if eng.mode == 'sound':
+            mutated = self.scout_mutations(eng, st, body, iteration)
+            h = self.havoc_for_loop(eng, st, body, extra_refs=mutated)
+            for o in iteration(h):
+                if o.sig in (NEXT, CONTINUE):
+                    self.check_sigma_frame(eng, o.st, ordinal)
+                elif o.sig == BREAK:
+                    outs.append(Outcome(o.st))
+                else:
+                    outs.append(o)
+            outs.append(Outcome(h))
+            return outs
+        H = witness_hyp(st)
+        for b, holds in eng.branch(st, H, f"WD{ordinal}"):
+            mutated = self.scout_mutations(eng, b, body, iteration)
+            h = self.havoc_for_loop(eng, b, body, extra_refs=mutated)
+            if not holds:
+                outs.append(Outcome(h))
+                continue
+            for o in iteration(h, witness=True):
+                if o.sig in (NEXT, CONTINUE, BREAK):
+                    if self.is_covered(eng, o.st):
+                        outs.append(Outcome(o.st, 'covered'))
+                    else:
+                        outs.append(Outcome(self.havoc_for_loop(eng, o.st, body, extra_refs=mutated)))
+                else:
+                    outs.append(o)
+        return outs
+
     def check_callee_pre(self, eng, st, c, sig, line, tag):
+        if c.eq(st.ghost['self']):
+            # helper generator of the same node: same binding, nothing to establish
+            eng.oblige(st, f"pre@call{tag}.L{line}", pre_I(c, sig), line=line)
+            return
         eng.oblige(st, f"pre@call{tag}.L{line}", pre_I(c, sig), hyp=good_hyps(st, c, sig), line=line)
-        # P2: the callee can recognise its position (the caller made itself the evaluation parent)
-        eng.oblige(st, f"pre@call{tag}.L{line}/position", Z.cond_pos(c) == cond_pos_def(c, st.fields['eval_parent']),
-                   line=line)
-        st.assume(Z.cond_pos(c) == cond_pos_def(c, st.fields['eval_parent']))
+        # P2: a callee whose behaviour depends on its position can recognise it (the caller made itself the
+        # evaluation parent)
+        p2 = z3.Implies(position_sensitive(c), Z.cond_pos(c) == cond_pos_def(c, st.fields['eval_parent']))
+        if not self.position_assumed(st, c):
+            eng.oblige(st, f"pre@call{tag}.L{line}/position", p2, line=line)
+        st.assume(p2)
         st.assume(pre_I(c, sig))
 
     def loop_stream(self, eng, st, target, body, stream, ordinal, node):
@@ -407,20 +538,34 @@ class EvalContract(LibModel):
         self.check_callee_pre(eng, st, c, sig, stream.data['line'], f"#loop{ordinal}")
         rho = st.ghost.get('rho_t')
 
+        def reachable(h):
+            # a callee may yield sigma itself; that only matters when this function still holds a reference to it
+            return sref is not None and (any(isinstance(v, D) and v.ref == sref for v in h.locals.values())
+                                         or h.ghost.get('sigma_ref') == sref)
+
         def iteration(h, witness=False):
             res = []
-            for alias in ([False, True] if sref is not None else [False]):
+            for alias in ([False, True] if reachable(h) else [False]):
                 b = h.clone()
                 b.path.append(f"loop{ordinal}:{'witness-' if witness else ''}{'alias' if alias else 'fresh'}")
+                # sigma as the callee sees it now (the caller may have consistently extended it: rely)
+                csig = b.dicts[sref] if sref is not None else sig
                 if alias:
+                    # the callee yields the very dict it was given, possibly after extending it (R0 / R1 say how)
                     row = D(sref)
-                    R = b.dicts[sref]
+                    R = Z.ZMap.fresh(f'arow{ordinal}')
+                    b.assume(R.extends(csig))
+                    b.dicts[sref] = R
+                    b.log_mut(sref, 'callee')
                 else:
                     row = eng.new_dict(b, Z.ZMap.fresh(f'row{ordinal}'))
                     R = b.dicts[row.ref]
-                # sigma as the callee sees it now (the caller may have consistently extended it: rely)
-                csig = b.dicts[sref] if sref is not None else sig
                 m = self.assume_row(b, c, csig, f, R)
+                if stream.data.get('own_method'):
+                    # a helper generator of the same node (`_evaluate_`): it sets the node's own flags
+                    b.assume(z3.Select(b.fields['ywf'], c) == f, Z.good_row(c, m) == self.good(c, m))
+                    pr = b.ghost.get('goodfacts', [])
+                    b.ghost['goodfacts'] = pr + [(ch, m) for ch in self.children(c)]
                 if not alias:
                     pr = dict(b.ghost.get('producer', {}))
                     pr[row.ref] = (c, csig)
@@ -434,13 +579,13 @@ class EvalContract(LibModel):
             return res
 
         outs = []
-        hyp_of = lambda r: z3.And(Z.ext(r, sig), WD(c, r), z3.Implies(Z.cond_pos(c), z3.Or(Z.Den(c, r), f)))
+        hyp_of = lambda r: z3.And(Z.ext(r, sig), WD(c, r), z3.Implies(lab(c), z3.Or(Z.Den(c, r), f)))
         if eng.mode == 'sound':
             mutated = self.scout_mutations(eng, st, body, iteration, callee=c)
             inv0 = self.loop_invariant(eng, st, ordinal, z3.BoolVal(False))
             if inv0 is not None:
                 eng.oblige(st, f"inv@loop{ordinal}/init", inv0, line=node.lineno)
-            h = self.havoc_for_loop(eng, st, body, callee=c, extra_refs=mutated)
+            h = self.havoc_for_loop(eng, st, body, callee=c, extra_refs=mutated, sigma_of_callee=(sref, c))
             itd = z3.FreshConst(Z.B, f'iterated{ordinal}')
             hi = h.clone()
             invh = self.loop_invariant(eng, hi, ordinal, itd)
@@ -452,6 +597,7 @@ class EvalContract(LibModel):
                     if invn is not None:
                         eng.oblige(o.st, f"inv@loop{ordinal}/preserved", invn, line=node.lineno)
                     self.on_iteration_end(eng, o.st, ordinal)
+                    self.check_sigma_frame(eng, o.st, ordinal)
                 elif o.sig == BREAK:
                     outs.append(Outcome(o.st))
                 else:
@@ -468,10 +614,10 @@ class EvalContract(LibModel):
             outs.append(Outcome(e))
             return outs
         # ---- witness mode
-        H = z3.And(Z.ext(rho, sig), WD(c, rho), z3.Implies(Z.cond_pos(c), z3.Or(Z.Den(c, rho), f)))
+        H = hyp_of(rho)
         for b, holds in eng.branch(st, H, f"W{ordinal}"):
             mutated = self.scout_mutations(eng, b, body, iteration, callee=c)
-            h = self.havoc_for_loop(eng, b, body, callee=c, extra_refs=mutated)
+            h = self.havoc_for_loop(eng, b, body, callee=c, extra_refs=mutated, sigma_of_callee=(sref, c))
             if not holds:
                 self.on_loop_exhausted(eng, h, ordinal, stream)
                 outs.append(Outcome(h))
@@ -483,7 +629,7 @@ class EvalContract(LibModel):
                     else:
                         # state after the loop: pre-loop scope havocked again, knowledge of the witness iteration
                         # kept in the path condition, `covered` carried over
-                        a = self.havoc_for_loop(eng, o.st, body, callee=c, extra_refs=mutated)
+                        a = self.havoc_for_loop(eng, o.st, body, callee=c, extra_refs=mutated, sigma_of_callee=(sref, c))
                         self.on_loop_exhausted(eng, a, ordinal, stream)
                         outs.append(Outcome(a))
                 else:
@@ -498,6 +644,10 @@ class EvalContract(LibModel):
         c, csig = prod
         eng.oblige(st, f"rely@L{getattr(node, 'lineno', 0)}", rely_growth(c, new, old, csig),
                    line=getattr(node, 'lineno', 0))
+
+    def position_assumed(self, st, c):
+        """call sites where P2 is an assumption instead of an obligation (listed in `trusted`)"""
+        return False
 
     def is_covered(self, eng, st):
         cov = st.ghost.get('covered')
@@ -588,7 +738,58 @@ class EvalContract(LibModel):
                 for x in ast.walk(b):
                     ast.copy_location(x, node)
             return self.loop_stream(eng, st, tgt, body, src, 100 + ordinal, node)
+        if isinstance(src, ZV) and src.ty == 'node' and src.t.eq(st.ghost['self']):
+            # `yield from self`: iter(self) is the generator method __iter__ of the class; its real body runs in place
+            q = self.src.resolve_method(self.cls, '__iter__')
+            if q is None:
+                raise OutOfSubset("yield from self without __iter__", node)
+            return self.inline_generator(eng, st, q, [src], {}, node)
+        if isinstance(src, Obj) and src.kind == 'gen':
+            return self.inline_generator(eng, st, src.data['qual'], src.data['args'], src.data['kwargs'], node)
         raise OutOfSubset(f"yield from {src}", node)
+
+    def inline_generator(self, eng, st, qual, args, kwargs, node):
+        """`yield from g(...)` for a generator method of the same object: g's real body is executed in place and its
+        yields are this function's yields."""
+        fd = self.src.get(qual)
+        if fd is None:
+            raise OutOfSubset(f"no source for {qual}", node)
+        eng.notes.append(f"inlined-generator:{qual}")
+        if id(fd) not in getattr(eng, '_gen_numbered', set()):
+            eng._gen_numbered = getattr(eng, '_gen_numbered', set()) | {id(fd)}
+            base = 1000 * len(eng._gen_numbered)
+            k = 0
+            for x in ast.walk(fd):
+                if isinstance(x, (ast.Yield, ast.YieldFrom)):
+                    k += 1
+                    eng.yield_ordinals[id(x)] = base + k
+                if isinstance(x, (ast.For, ast.While)):
+                    eng.loop_ordinals[id(x)] = base + len([1 for y in eng.loop_ordinals if True]) + 1
+        params = [a.arg for a in fd.args.args]
+        defaults = fd.args.defaults
+        loc = {}
+        ds = len(params) - len(defaults)
+        for i, p in enumerate(params):
+            if i < len(args):
+                loc[p] = args[i]
+            elif p in kwargs:
+                loc[p] = kwargs[p]
+            elif i >= ds and isinstance(defaults[i - ds], ast.Constant):
+                loc[p] = C(defaults[i - ds].value)
+            else:
+                raise OutOfSubset(f"missing argument {p} for {qual}", node)
+        s2 = st.clone()
+        saved, saved_finals = s2.locals, s2.finals
+        s2.locals, s2.finals = loc, []
+        outs = []
+        for o in eng.exec_block(fd.body, s2):
+            s3 = o.st.clone()
+            s3.locals, s3.finals = saved, saved_finals
+            if o.sig in (NEXT, RETURN):
+                outs.append(Outcome(s3))
+            else:
+                outs.append(Outcome(s3, o.sig, o.val))
+        return outs
 
     # ---- yields ----
     def on_yield(self, eng, st: State, v: SV, ordinal, node):
@@ -605,15 +806,17 @@ class EvalContract(LibModel):
             eng.oblige(st, f"{tag}/R0-locality", row.subset_of_ids(Z.ids_union(sig.has, Z.SubIds(n))), line=node.lineno)
             eng.oblige(st, f"{tag}/R1-consistent", row.consistent_with(sig), line=node.lineno)
             for i, c in enumerate(self.children(n)):
-                eng.oblige(st, f"{tag}/R2-legit.operand{i}", Z.good_row(c, m), hyp=good_hyps(st, c, m), line=node.lineno)
-            eng.oblige(st, f"{tag}/R2-legit.own", self.good(n, m), hyp=[Z.good_row(c, m) for c in self.children(n)],
-                       line=node.lineno)
+                eng.oblige(st, f"{tag}/R2-legit.operand{i}", z3.Implies(c != Z.NoneNode, Z.good_row(c, m)),
+                           hyp=good_hyps(st, c, m), line=node.lineno)
+            eng.oblige(st, f"{tag}/R2-legit.own", self.good(n, m),
+                       hyp=[z3.Implies(c != Z.NoneNode, Z.good_row(c, m)) for c in self.children(n)], line=node.lineno)
             rho = z3.FreshConst(Z.Env, 'rho')
             eng.oblige(st, f"{tag}/R3-label", lbl == z3.Not(self.den(n, rho)),
-                       hyp=[Z.ext(rho, m), Z.cond_pos(n), WD(n, rho)],
+                       hyp=[Z.ext(rho, m), lab(n), WD(n, rho)],
                        envs=[rho], line=node.lineno)
-            eng.oblige(st, f"{tag}/R4-filter", z3.Implies(z3.And(Z.cond_pos(n), z3.Not(f)), z3.Not(lbl)), line=node.lineno)
+            eng.oblige(st, f"{tag}/R4-filter", z3.Implies(z3.And(lab(n), z3.Not(f)), z3.Not(lbl)), line=node.lineno)
             eng.oblige(st, f"{tag}/R5-own-id", z3.Implies(Z.is_value(n), row.contains(Z.nid(n))), line=node.lineno)
+            eng.oblige(st, f"{tag}/R5-binds", z3.Map(Z.IMP_D, Binds(n), m.has) == TRUE_IDS, line=node.lineno)
             eng.oblige(st, f"cover@yield#{ordinal}", z3.BoolVal(True), kind='cover', line=node.lineno)
             self.extra_yield_obligations(eng, st, v, ordinal, node)
         else:
